@@ -80,6 +80,8 @@ func harnessFiles() []string {
 	return fs
 }
 
+var substitutions []string // orig=edited pairs (mutant testing; /repo itself stays untouched)
+
 var buildMu sync.Mutex
 var built = map[string]string{}
 
@@ -110,6 +112,9 @@ func buildWorkerNoLock(flavour string) string {
 	}
 	for _, f := range harnessFiles() {
 		args = append(args, "-add", f)
+	}
+	for _, sb := range substitutions {
+		args = append(args, "-subst", sb)
 	}
 	cmd := exec.Command(filepath.Join(verifDir, "bin", "vinstr"), args...)
 	cmd.Env = env()
@@ -357,12 +362,21 @@ func main() {
 			only = os.Args[i]
 		case "--keep":
 			keep = true
+		case "--mutant":
+			i++
+			mutantPatch = os.Args[i]
 		default:
 			pos = append(pos, a)
 		}
 	}
 	mkScratch()
 	defer cleanup()
+	if e := os.Getenv("VERIF_EXTRA_OVERLAY"); e != "" {
+		substitutions = append(substitutions, strings.Split(e, ",")...)
+	}
+	if mutantPatch != "" {
+		applyMutant(mutantPatch)
+	}
 	switch pos[0] {
 	case "passthrough":
 		os.Exit(passthrough())
@@ -383,6 +397,32 @@ func main() {
 	code := check(pos[0], tier, only)
 	cleanup()
 	os.Exit(code)
+}
+
+var mutantPatch string
+
+// applyMutant applies a patch to a scratch copy of the repository's Go files and registers every
+// changed file as a substitution, so that /repo itself is never modified.
+func applyMutant(patch string) {
+	abs, _ := filepath.Abs(patch)
+	dst := filepath.Join(scratch, "mutant")
+	cmd := exec.Command("sh", "-c", fmt.Sprintf("mkdir -p %[1]s && cd %[2]s && git ls-files '*.go' go.mod go.sum | rsync -a --files-from=- . %[1]s/ && cd %[1]s && patch -p1 -s < %[3]s", dst, repoDir, abs))
+	if out, err := cmd.CombinedOutput(); err != nil {
+		fatal("applying mutant %s: %v\n%s", patch, err, out)
+	}
+	filepath.Walk(dst, func(p string, fi os.FileInfo, err error) error {
+		if err != nil || fi.IsDir() || !strings.HasSuffix(p, ".go") {
+			return nil
+		}
+		rel, _ := filepath.Rel(dst, p)
+		a, _ := os.ReadFile(p)
+		b, err2 := os.ReadFile(filepath.Join(repoDir, rel))
+		if err2 != nil || !bytes.Equal(a, b) {
+			substitutions = append(substitutions, filepath.Join(repoDir, rel)+"="+p)
+		}
+		return nil
+	})
+	fmt.Printf("mutant %s: %d file(s) substituted\n", filepath.Base(patch), len(substitutions))
 }
 
 func passthrough() int {
